@@ -10,6 +10,7 @@ From LunaLib Require Import Netlist Bits Machine ListMem PackN Affine.
 From LunaModel Require Import Crc Crc_proofs HdrRx.
 Open Scope N_scope.
 Ltac Zify.zify_post_hook ::= Z.div_mod_to_equations.
+Unset Lia Cache.
 
 (* ------------------------------------------------------------------------------------------ *)
 (* 1. Packing                                                                                  *)
@@ -783,5 +784,33 @@ Proof.
   - apply repeat_length.
   - apply Forall_forall. intros x Hx. apply repeat_spec in Hx. subst x. apply pow2_gt0.
 Qed.
+
+(* ------------------------------------------------------------------------------------------ *)
+(* 3. What acceptance by the specification means for histories                                   *)
+Section HistProofs.
+  Variables n sw : N.
+  Variable down : bool.
+  (* exactly once, in order: what was handed over, followed by what is still queued, is what was queued before
+     followed by what was accepted (while the link stays up) *)
+  Theorem sp_fifo : forall ios g gf a d, Forall (fun io => restart (fst io) = false) ios ->
+    sp_run n sw down g ios = Some (gf, a, d) -> s_q g ++ a = d ++ s_q gf.
+  Proof.
+    induction ios as [|[i o] t IH]; intros g gf a d Hall H.
+    - cbn in H. inversion H; subst. rewrite app_nil_r. reflexivity.
+    - cbn [sp_run] in H. inversion Hall as [|? ? Hr Ht]; subst. cbn [fst] in Hr.
+      unfold sp_mon in H. destruct (sp_env n g i); [|discriminate H].
+      destruct (sp_check down g i o) eqn:Hc; [|discriminate H].
+      destruct (sp_run (sp_next n sw g i o) t) as [[[gf' a'] d']|] eqn:Hrun; [|discriminate H].
+      inversion H; subst; clear H. specialize (IH _ _ _ _ Ht Hrun).
+      unfold sp_next in IH. rewrite Hr in IH. cbn [s_q] in IH.
+      unfold sp_check in Hc. apply andb_true_iff in Hc as [Hc _]. apply andb_true_iff in Hc as [Hq _].
+      destruct (o_qvalid o && i_qrdy i) eqn:Et.
+      + apply andb_true_iff in Et as [Ev _]. destruct (s_q g) as [|h r] eqn:Eq.
+        * rewrite Ev in Hq. discriminate Hq.
+        * apply andb_true_iff in Hq as [_ Hh]. apply N.eqb_eq in Hh. rewrite Hh. cbn [tl app] in *.
+          f_equal. rewrite <- IH. rewrite <- !app_assoc. reflexivity.
+      + cbn [app]. rewrite <- IH. rewrite <- !app_assoc. reflexivity.
+  Qed.
+End HistProofs.
 
 Transparent crc_update crc5_usb crc16_hdr reg_init crc_out N2bits hdr_pack.
